@@ -1263,6 +1263,11 @@ class Executor(object):
                 if kw.arg is None:
                     if isinstance(v, VDict) and v.items is not None:
                         for kk, vv in v.items.items():
+                            # concrete dict keys are stored as (kind, value): keyword names are the plain strings
+                            if isinstance(kk, tuple) and len(kk) == 2 and kk[0] == 's':
+                                kk = kk[1]
+                            elif not isinstance(kk, str):
+                                raise Unsupported('**kwargs with a non-string key')
                             kwargs[kk] = vv
                     else:
                         raise Unsupported('**kwargs with symbolic dict')
